@@ -1,9 +1,12 @@
-(* C05 — Order elevation preserves geometry and continuity; lowering undoes it.   (PARTIAL, see below)
-   Model: Model/Order.v (knot vectors of raise/lower_order, the Greville-interpolation order change through
-   the exact self-checking solve of Model/Solve.v). *)
+(* C05 — Order elevation preserves geometry and continuity; lowering undoes it.
+   Model: Model/Order.v (knot vectors of raise/lower_order, the Greville-interpolation order change through the
+   exact two-sided inverse of Model/Interp.v, which is what np.linalg.inv is modelled by).
+   FULL for non-periodic open (clamped) directions, any amount, any pardim/direction, rational or not (the
+   change of basis acts on homogeneous control points): theorems 4-8.  PARTIAL for periodic directions
+   (theorem 3 is the conditional statement; what is missing there is the periodic analogue of theorem 6). *)
 From Coq Require Import List Arith Reals Lra Lia Bool ZArith QArith Permutation.
-From SplipyModel Require Import Spec.BSpline Model.Num Model.BasisDef Model.Tensor Model.Obj Model.KnotInsert Model.Solve Model.Order
-  Proofs.TensorLemmas Proofs.TensorApply Proofs.OrderProofs Extract.Exec.
+From SplipyModel Require Import Spec.BSpline Spec.DegreeElev Model.Num Model.BasisDef Model.Tensor Model.Obj Model.KnotInsert Model.Solve Model.Interp Model.Order
+  Proofs.TensorLemmas Proofs.TensorApply Proofs.OrderProofs Proofs.LinAlg Proofs.RaiseNested Proofs.OrderRaise Proofs.RaiseAmount Extract.Exec.
 Import ListNotations.
 Open Scope R_scope.
 
@@ -27,6 +30,88 @@ Theorem C05_raise_order_geometry_partial dim c (M : list (list R)) rows d N' cps
   tsum (upd rows d N') (cnet dim c (apply_dir dim (map (@length R) rows) d M cps)) = tsum rows (cnet dim c cps).
 Proof. exact (order_change_preserves_map_partial dim c M rows d N' cps). Qed.
 Print Assumptions C05_raise_order_geometry_partial.
+
+(* 4. degree elevation (Prautzsch's identity), both one-sided variants, arbitrary multiplicities:
+      (q+1) B_k,q,i = sum over j = i..i+q+1 of B_{k with knot j doubled},q+1,i *)
+Theorem C05_degree_elevation_identity side q (k : nat -> R) : sorted k -> forall i t,
+  INR (q + 1) * B side k q i t = sumf (fun j => B side (dup j k) (S q) i t) i (q + 2).
+Proof. exact (prautzsch side q k). Qed.
+Print Assumptions C05_degree_elevation_identity.
+
+Section Raise.
+Variable l : list R.            (* sorted knot vector *)
+Variables (p a : nat) (tol : R).
+Hypothesis Hs : lsorted l.
+Hypothesis Hp : (1 <= p)%nat.
+Hypothesis Ha : (1 <= a)%nat.
+Hypothesis Hlen : (2 * p <= length l)%nat.
+Hypothesis Hopen : open_knots l p.                      (* first p and last p knots equal: clamped *)
+Hypothesis Htol : 0 < tol.
+Hypothesis Hsep : separated tol l.                      (* distinct knots differ by more than the knot tolerance *)
+Hypothesis Hdom : nth 0 l 0 < nth (length l - 1) l 0.   (* start < end *)
+Let b := @mkBasis R p l 0.
+Let spans := @knot_spans R NumR tol b true.
+
+(* 5. BSplineBasis.raise_order(a): order p+a, non-periodic, knot vector = sorted union of the old knots and a
+      copies of every distinct knot value (so every multiplicity, hence every continuity, is unchanged) *)
+Theorem C05_raise_order_basis :
+  @basis_raise_order R NumR tol b a = mkBasis (p + a) (chain l spans a) 0 /\
+  lsorted (chain l spans a) /\ Permutation (chain l spans a) (l ++ repeat_list spans a) /\ (forall x, In x spans <-> In x l).
+Proof. split; [exact (raise_order_basis l p a tol Hs Hp Ha Hlen)|exact (raise_order_knots l p a tol Hs Hp Ha Hlen Hopen Htol Hsep Hdom)]. Qed.
+
+(* 6. the change of basis that raise_order applies in direction d of any tensor-product object (the other
+      directions are arbitrary rows of basis values) leaves every coordinate of the evaluation unchanged, at every
+      parameter and for both one-sided variants *)
+Theorem C05_raise_order_geometry M dim c side t (rows : list (list R)) d cps :
+  @order_change_matrix R NumR tol b (@basis_raise_order R NumR tol b a) = Ok M ->
+  (d < length rows)%nat -> (c < dim)%nat -> nth d rows [] = Brow side l p t ->
+  net_ok dim rows cps -> (0 < prodl (map (@length R) rows))%nat ->
+  coord c (@teval R NumR dim (@upd (list R) rows d (Brow side (chain l spans a) (p + a) t))
+                  (@apply_dir R NumR dim (map (@length R) rows) d M cps))
+  = coord c (@teval R NumR dim rows cps).
+Proof. exact (raise_order_preserves_map l p a tol Hs Hp Ha Hlen Hopen Htol Hsep Hdom M dim c side t rows d cps). Qed.
+
+(* 7. lower_order after raise_order: the matrix of the reverse change of basis is a left inverse, so the control
+      points come back exactly *)
+Theorem C05_lower_after_raise M M2 : (0 < length l - p)%nat ->
+  @order_change_matrix R NumR tol b (@basis_raise_order R NumR tol b a) = Ok M ->
+  @order_change_matrix R NumR tol (@basis_raise_order R NumR tol b a) b = Ok M2 ->
+  @matmul R NumR M2 M = @ident R NumR (length l - p).
+Proof. exact (lower_after_raise_order l p a tol Hs Hp Ha Hlen Hopen Htol Hsep Hdom M M2). Qed.
+End Raise.
+Print Assumptions C05_raise_order_basis.
+Print Assumptions C05_raise_order_geometry.
+Print Assumptions C05_lower_after_raise.
+
+(* 8. the generic statement behind 6 (used for any pair of bases with the same domain and knot values in which the
+      old functions are combinations of the new ones): the model's order-change matrix is that combination *)
+Theorem C05_order_change_unique (l L : list R) (p P : nat) (tol : R) :
+  sorted (@kn R NumR l) -> sorted (@kn R NumR L) -> (forall x, In x l <-> In x L) ->
+  (1 <= p)%nat -> (1 <= P)%nat -> (2 * p <= length l)%nat -> (2 * P <= length L)%nat -> 0 < tol -> (0 < length L - P)%nat ->
+  @kn R NumR L (P - 1) = @kn R NumR l (p - 1) -> @kn R NumR L (length L - P) = @kn R NumR l (length l - p) ->
+  (exists C, mat (length L - P) (length l - p) C /\ forall side t i, (i < length l - p)%nat ->
+      B side (@kn R NumR l) (p - 1) i t = sumf (fun r => B side (@kn R NumR L) (P - 1) r t * ment C r i) 0 (length L - P)) ->
+  forall M, @order_change_matrix R NumR tol (mkBasis p l 0) (mkBasis P L 0) = Ok M ->
+  mat (length L - P) (length l - p) M /\ forall side t i, (i < length l - p)%nat ->
+      B side (@kn R NumR l) (p - 1) i t = sumf (fun r => B side (@kn R NumR L) (P - 1) r t * ment M r i) 0 (length L - P).
+Proof. exact (order_change_is_nested l L p P tol). Qed.
+Print Assumptions C05_order_change_unique.
+
+(* the hypotheses of 5-7 are satisfiable: a clamped cubic knot vector with a double interior knot *)
+Example C05_hyps_example :
+  let l := [0; 0; 0; 0; 1; 2; 2; 3; 3; 3; 3] in
+  lsorted l /\ open_knots l 4 /\ separated (1/1000) l /\ nth 0 l 0 < nth (length l - 1) l 0 /\ (2 * 4 <= length l)%nat.
+Proof.
+  cbv zeta. split; [repeat (constructor; try lra)|]. split.
+  - split; intros i Hi; do 4 (destruct i as [|i]; [cbn; reflexivity|]); lia.
+  - split; [|split; [cbn; lra|cbn; lia]].
+    intros y z Hy Hz. cbn [In] in Hy, Hz.
+    assert (Hy' : y = 0 \/ y = 1 \/ y = 2 \/ y = 3) by (intuition lra).
+    assert (Hz' : z = 0 \/ z = 1 \/ z = 2 \/ z = 3) by (intuition lra).
+    clear Hy Hz.
+    destruct Hy' as [-> | [-> | [-> | ->]]]; destruct Hz' as [-> | [-> | [-> | ->]]];
+      first [left; reflexivity | right; unfold Rabs; destruct (Rcase_abs _); lra].
+Qed.
 
 (* non-vacuity, executed on Q: raising a rational quadratic arc by one and lowering it again *)
 Example C05_example :
